@@ -75,6 +75,8 @@ def ref_call(o, table):
         return dict(code=-32602, exact=None), []
     calls = [(name, bound)]
     kind = beh['kind']
+    if kind == 'viewstate':
+        return dict(result=[bound['x']]), calls
     if kind == 'ret':
         result = beh['result'](bound) if callable(beh.get('result')) else bound
         if beh.get('normalise'):
